@@ -156,6 +156,23 @@ example : ∃ b, buildV1 true [(nm "y", .double), (nm "q", .uchar), (nm "x", .fl
 example : ∃ b, buildV1 true [(nm "y", .double), (nm "q", .uchar), (nm "x", .float)] (nm "x") (nm "x") = some b ∧ b.offs = [9] :=
   ⟨_, buildV1_spec true _ _ _ 2 (by decide) (by decide) (by decide), by decide⟩
 
+/-! ### record layer: vector properties (x y z, colours, …), any header order -/
+
+/-- THE VECTOR CLAIM SCAN, any order of the header's properties: when component `k` of a 2/3/4-vector reader is the
+header property at position `idx[k]` and all components have one scalar type, the reader is built with that type and
+the location of component `k` is the sum of the strides of the properties before position `idx[k]` in HEADER order
+(binary: byte offsets; ASCII: columns).  (Guard: one type per group — with mixed types the reader is NOT built, see C08
+`ply_mixed_type_group_not_claimed`.) -/
+theorem ply_vector_reader_offsets (binary : Bool) (props : List (Bytes × SType)) (attr : Bytes) (names : List Bytes)
+    (hn : names.Nodup) (hne : names ≠ []) (hnd : (props.map (·.1)).Nodup) (t : SType) (idx : List Nat)
+    (hlen : idx.length = names.length)
+    (hidx : ∀ k (hk : k < names.length), ∃ hi : idx[k]'(by omega) < props.length, props[idx[k]'(by omega)] = (names[k], t)) :
+    buildVec binary props attr names = some ⟨attr, names, idx.map (locOf binary props), some t⟩ :=
+  buildVec_spec binary props attr names hn hne hnd t idx hlen hidx
+
+example : buildVec true [(nm "z", .float), (nm "q", .uchar), (nm "x", .float), (nm "y", .float)] positionAttr
+    [nm "x", nm "y", nm "z"] = some ⟨positionAttr, [nm "x", nm "y", nm "z"], [5, 9, 0], some .float⟩ := by decide
+
 /-! ### known finding: 8-bit scalar properties (reader_vector1.go:38-57) -/
 
 /-- ASCII: the scalar reader's type is never assigned, so the parsed token is stored as is … -/
